@@ -57,7 +57,7 @@ READY = True
 # (and as returned in Evaluate_e mode); "code" = (dim, dof_n) as built by Field.grad in assembly mode (finding C13-e)
 GRAD_LAYOUT = "doc"
 TOL_ID = 1e-12  # identity level
-TOL_MAT = 1e-11  # matrices of two simulations whose quadrature rules are both exact but different
+TOL_MAT = 1e-10  # matrices of two simulations whose quadrature rules are both exact but different
 TOL_SOLVE = 1e-8
 
 # element types with nPe <= 10 (quick tier) and the others (thorough tier only: (nPe*dof_n)^2 python calls per form)
@@ -78,7 +78,7 @@ def types2d():
 
 
 def types3d():
-    return LIGHT3 * 3 + HEAVY3 if _thorough() else LIGHT3
+    return LIGHT3 * 6 + HEAVY3 if _thorough() else LIGHT3
 
 
 RAISE_WHAT = {
@@ -93,6 +93,21 @@ def excluded(rec, cls: str) -> bool:
     the call is then skipped and counted.  In replay mode and once the entry is `fixed` the call is made."""
     if rec.is_known(RAISE_WHAT[cls], {"cls": cls}) is not None:
         rec.label("excluded:" + cls)
+        return True
+    return False
+
+
+def known_raise(rec, form, n, bil, tags) -> bool:
+    """True (and counted) when the form lies in a class on which EasyFEA is known to raise"""
+    for cls in ("bilinear_trailing1", "linear_scalar"):
+        if cls in tags and excluded(rec, cls):
+            return True
+    pure_mass = bil and all((t["u"][0] == "val") == (t["v"][0] == "val") and
+                            (t["u"][0] == "val" or not (cf.has_val(t["u"]) or cf.has_val(t["v"]))) for t in form["terms"])
+    if "vector_value" in tags and not pure_mass and rec.is_known("interpreter", dict(vector_value=True)) is not None:
+        # the 1-component value of a vector field contracted with a dof_n-sized tensor: FeArray rejects the
+        # contraction (ValueError), same root cause as the wrong mass form (C13-b) -> counted, not run
+        rec.label("excluded:vector_value_contracted")
         return True
     return False
 
@@ -170,15 +185,7 @@ def check_interp(case, rec):
     rec.label("kind:" + case["kind"], *["class:" + t for t in sorted(tags)])
     if n > 1 and n != d:
         rec.label("rectangular_grad")
-    for cls in ("bilinear_trailing1", "linear_scalar"):
-        if cls in tags and excluded(rec, cls):
-            return
-    pure_mass = bil and all((t["u"][0] == "val") == (t["v"][0] == "val") and
-                            (t["u"][0] == "val" or not (cf.has_val(t["u"]) or cf.has_val(t["v"]))) for t in form["terms"])
-    if "vector_value" in tags and not pure_mass and rec.is_known("interpreter", dict(vector_value=True)) is not None:
-        # the 1-component value of a vector field contracted with a dof_n-sized tensor: FeArray rejects the
-        # contraction (ValueError), same root cause as the wrong mass form -> counted, not run
-        rec.label("excluded:vector_value_contracted")
+    if known_raise(rec, form, n, bil, tags):
         return
     field = Field(g, n, matrixType=mt)
     if bil:
@@ -330,9 +337,8 @@ def check_assemble(case, rec):
     form = case["form"]
     tags = cf.classes(form, n, bil)
     rec.label("kind:" + case["kind"])
-    for cls in ("bilinear_trailing1", "linear_scalar"):
-        if cls in tags and excluded(rec, cls):
-            return
+    if known_raise(rec, form, n, bil, tags):
+        return
     if not bil and excluded(rec, "linear_assemble"):
         return
     field = Field(g, n, matrixType=mt)
@@ -593,12 +599,12 @@ def check_simu(case, rec):
 
 
 SUBS = [
-    Sub("forms_vs_interpreter", check_interp, gen=form_cases, quick=400, thorough=1500, shards=8,
+    Sub("forms_vs_interpreter", check_interp, gen=form_cases, quick=400, thorough=800, shards=8,
         doc="generated ASTs: form.Integrate_e(field) == numpy interpreter"),
-    Sub("forms_vs_builtins", check_builtins, gen=builtin_cases, quick=300, thorough=1200, shards=4,
+    Sub("forms_vs_builtins", check_builtins, gen=builtin_cases, quick=300, thorough=600, shards=4,
         doc="documented idioms == Operators.Bilinear / Linear with the same matrixType"),
-    Sub("assemble", check_assemble, gen=assemble_cases, quick=200, thorough=1000, shards=4,
+    Sub("assemble", check_assemble, gen=assemble_cases, quick=200, thorough=500, shards=4,
         doc="form.Assemble(field) == dense scatter-add of form.Integrate_e(field)"),
-    Sub("simu_equivalence", check_simu, gen=simu_cases, quick=200, thorough=800, shards=8,
+    Sub("simu_equivalence", check_simu, gen=simu_cases, quick=200, thorough=300, shards=8,
         doc="Simulations.WeakForms == Simulations.Thermal / Elastic: K, C, M, F and solutions"),
 ]
